@@ -53,6 +53,12 @@ def unpickler_calls(repo: Repo, fn: FuncInfo) -> List[ast.Call]:
             else:
                 # module-level alias of an unpickler (e.g. `_orig = pickle.load`)
                 d = dotted(n.func)
+                if isinstance(n.func, ast.Name):
+                    # function-local alias: `real = pickle.loads; real(...)`
+                    loc = [st.value for st in body_walk(fn.node) if isinstance(st, ast.Assign) and any(isinstance(t, ast.Name) and t.id == n.func.id for t in st.targets)]
+                    if loc and all((repo.resolve_expr(fn.module, v, local) or "") in UNPICKLERS for v in loc):
+                        out.append(n)
+                        continue
                 if d and d in fn.module.assigns and len(fn.module.assigns[d]) >= 1:
                     for v in fn.module.assigns[d]:
                         if (repo.resolve_expr(fn.module, v) or "") in UNPICKLERS:
